@@ -46,7 +46,7 @@ const (
 	evGetStats
 )
 
-const reloadTimeout = 30 * time.Millisecond
+const reloadTimeout = 50 * time.Millisecond
 
 var validationKey = []byte("valid")
 
@@ -69,6 +69,7 @@ type script struct {
 	block   chan struct{} // when non-nil: wait until closed (cand/key are set before)
 	spin    time.Time     // when non-zero: busy-wait until then (race attempts)
 	done    chan struct{} // closed when DBI.Reload is about to return
+	started chan struct{} // when non-nil: closed as soon as DBI.Reload has been entered
 	created *fakeDB       // the fresh backend, if any
 }
 
@@ -182,6 +183,9 @@ func (f *fakeDB) Reload(path string) (db.DBI, error) {
 	if sc == nil {
 		f.rec(evReloadRet)
 		return nil, errors.New("unscripted reload")
+	}
+	if sc.started != nil {
+		close(sc.started)
 	}
 	if sc.block != nil {
 		<-sc.block
@@ -433,11 +437,14 @@ func (r *runner) do(o gop) {
 		}
 		r.observe(o, res, r.takeEvents())
 	case "tfirst":
-		sc := &script{block: make(chan struct{}), done: make(chan struct{})}
+		sc := &script{block: make(chan struct{}), done: make(chan struct{}), started: make(chan struct{})}
 		r.w.mu.Lock()
 		r.w.scripts = append(r.w.scripts, sc)
 		r.w.mu.Unlock()
 		res := errClass(r.fb.Reload(r.signal("same")))
+		// on a loaded machine the reload goroutine may not even have called DBI.Reload when
+		// its caller times out; the call belongs to this step, so wait until it has been made
+		waitCh(sc.started, 5*time.Second)
 		r.pending = append(r.pending, sc)
 		r.observe(o, res, r.takeEvents())
 	case "late":
@@ -486,7 +493,7 @@ func (r *runner) do(o gop) {
 
 func runHistory(class string, gen []gop) caseOut {
 	var out caseOut
-	for attempt := 0; attempt < 4; attempt++ {
+	for attempt := 0; attempt < 6; attempt++ {
 		w := &world{ownerGID: gid()}
 		w.mu.Lock()
 		b0 := w.newBackend(true)
